@@ -41,6 +41,11 @@ func runGentest(args []string) int {
 		}
 		return 0
 	}
+	if kind == "showown" {
+		p := genOwnProgram(prng.Stream(seed, "heapsim", "gen", n), n, false)
+		fmt.Println(string(p.Files[p.Root]))
+		return 0
+	}
 	if kind == "showc11" {
 		p := genOwnProgramOpt(prng.Stream(seed, "c11", "gen", n), n, false, n%2 == 0)
 		fmt.Println(string(p.Files[p.Root]))
